@@ -71,7 +71,10 @@ def gen(rng, tier):
         steps.append({"op": "update", "feats": [feat(rng, gtf) for _ in range(rng.randint(1, 4))],
                       "strategy": rng.choice(STRATS + ["merge", "merge"]), "form": rng.choice(["path", "list", "gen", "iter1", "string"])})
     steps.append({"op": rng.choice(["reopen", "restart", "none"])})
-    return {"gtf": gtf, "fmf": fmf, "steps": steps, "fault_profile": rng.random() < 0.1, "fault_seed": rng.getrandbits(32)}
+    memory = rng.random() < 0.15
+    if memory:
+        steps = [st for st in steps if st["op"] not in ("reopen", "restart")]
+    return {"gtf": gtf, "fmf": fmf, "steps": steps, "memory": memory, "fault_profile": rng.random() < 0.1, "fault_seed": rng.getrandbits(32)}
 
 
 def run(case):
@@ -151,7 +154,9 @@ def run(case):
             if gtf:
                 req["id_spec"] = id_spec
             if k == "create":
-                req["db"] = "a.db"
+                req["db"] = ":memory:" if case.get("memory") else "a.db"
+                if case.get("memory"):
+                    probes["memory_database"] = 1
             else:
                 kw["make_backup"] = False
             pre = model.clone()
@@ -184,7 +189,7 @@ def run(case):
                 break
         out["stats"] = w.stats
     hard_v = [v for v in V if v["sig"].get("kind") != "replace_stale_parent_link"]
-    if case.get("fault_profile") and not gtf and not hard_v and not out.get("discarded"):
+    if case.get("fault_profile") and not gtf and not case.get("memory") and not hard_v and not out.get("discarded"):
         # the same collision history under faults: source failure positions, sql error / cancel / crash points,
         # then reopen/restart and a further update (relaxed C10-style oracle: pre-state or prefix, ids never recycle)
         from checks import c10
